@@ -169,7 +169,6 @@ func runC11(c *core.Ctx) {
 	}
 }
 
-
 // c11MetachainWindow: what makes an address a metachain system-contract address is the run of
 // numInitCharactersForOnMetachainSC zero bytes that follows the NumInitCharactersForScAddress-byte
 // contract prefix. Every window of the address that IsSmartContractOnMetachain cuts out for that
